@@ -367,8 +367,12 @@ func (wk *worker) step(n *node, op Op) (*node, *Transition) {
 	wk.trans++
 	wk.kinds[op.Kind]++
 	t := &Transition{Scen: e.sc, W: wk.w, Pre: n.st, Op: op, Res: &res, Post: post, PreCtx: n.ctx, PostCtx: pctx, hist: n.hist.push(op)}
-	for _, m := range wk.mons {
-		e.report(m.OnTransition(t), t)
+	// A restart from the exported state is not an operation of the module: no property speaks about the
+	// step itself (C15 has its own, stronger treatment); the monitors judge what happens afterwards.
+	if op.Kind != "reimport" {
+		for _, m := range wk.mons {
+			e.report(m.OnTransition(t), t)
+		}
 	}
 	oc := op.Kind + ":ok"
 	if !res.OK() {
@@ -458,8 +462,10 @@ func replayOps(w *world.World, sc *Scenario, ops []Op, mons []Monitor) (*node, [
 		}
 		t := &Transition{Scen: sc, W: w, Pre: n.st, Op: op, Res: &res, Post: post, PreCtx: n.ctx, PostCtx: pctx, hist: n.hist.push(op)}
 		last = nil
-		for _, m := range mons {
-			last = append(last, m.OnTransition(t)...)
+		if op.Kind != "reimport" {
+			for _, m := range mons {
+				last = append(last, m.OnTransition(t)...)
+			}
 		}
 		_ = i
 		n = &node{ctx: pctx, st: post, bud: n.bud, hist: t.hist}
